@@ -332,13 +332,11 @@ func (s *SharedStore) GetSliceOr(key string, defaultVal []any) []any {
 		return slice
 	}
 
-	// Try to convert using reflection
-	result := ToSlice(val)
-	if len(result) == 1 && result[0] == val {
-		// ToSlice wrapped a non-slice value, so this wasn't actually a slice
+	// ToSlice wraps non-slice values, so check that it's actually a slice
+	if reflect.ValueOf(val).Kind() != reflect.Slice {
 		return defaultVal
 	}
-	return result
+	return ToSlice(val)
 }
 
 // GetMap retrieves a map[string]any from the store.
